@@ -163,12 +163,14 @@ func BadCode(g *spec.Grammar) int {
 func fill(tmpl string, g *spec.Grammar, id int, v Variant) string {
 	var codes []string
 	var setval strings.Builder
+	var tagged []string
 	for k, t := range g.Tokens {
 		if t.Name != "" {
 			codes = append(codes, t.Name)
 		} else {
 			codes = append(codes, fmt.Sprint(t.Lit))
 		}
+		tagged = append(tagged, fmt.Sprint(t.Tag != ""))
 		if t.Tag != "" {
 			src := "sv"
 			if spec.TagIsInt(t.Tag) {
@@ -198,6 +200,7 @@ func fill(tmpl string, g *spec.Grammar, id int, v Variant) string {
 	s = strings.ReplaceAll(s, "@PKG@", pkgName(id, v))
 	s = strings.ReplaceAll(s, "@CODES@", strings.Join(codes, ", "))
 	s = strings.ReplaceAll(s, "@SETVAL@", setval.String())
+	s = strings.ReplaceAll(s, "@TAGGED@", strings.Join(tagged, ", "))
 	s = strings.ReplaceAll(s, "@STARTVAL@", startval)
 	s = strings.ReplaceAll(s, "@BADCODE@", fmt.Sprint(BadCode(g)))
 	eofCode := "-1"
